@@ -11,7 +11,7 @@ Open Scope list_scope.
 Theorem C13_total : forall (r : fenv) pol f,
   match expand r pol f with
   | Ok _ => True
-  | Err (EMissing _ | EUnclosed _ | ECycle _) => True
+  | Err (EMissing _ | EUnclosed _ | ECycle _ | ETooDeep _) => True
   | _ => False
   end.
 Proof. exact expand_total. Qed.
@@ -22,7 +22,7 @@ Print Assumptions C13_total.
 Theorem C13_total_eval : forall EV (r : fenv) pol f, ev_real EV ->
   match expand_eval EV r pol f with
   | Ok _ => True
-  | Err (EMissing _ | EUnclosed _ | ECycle _ | EExpr _) => True
+  | Err (EMissing _ | EUnclosed _ | ECycle _ | ETooDeep _ | EExpr _) => True
   | _ => False
   end.
 Proof. exact expand_eval_total_real. Qed.
@@ -105,6 +105,22 @@ Theorem C13_cycle_on_path : forall (r : fenv) pol fuel seen (l k t : str),
 Proof. exact expand_rec_cycle. Qed.
 Print Assumptions C13_cycle_on_path.
 
+(* nesting: references are followed on the call stack; a reference met max_depth (100) levels down is a
+   typed error, so the recursion depth is bounded whatever the variable map (the code before the fix
+   overflowed the stack on a chain of some thousand variables) *)
+Theorem C13_too_deep : forall (r : fenv) pol fuel seen (l k t : str),
+  has_db l = false -> is_bslash (last_byte None l) = false ->
+  (forall c, In c k -> c <> ch_rbrace) -> has_db t = false ->
+  ~ In k seen -> max_depth <= length seen ->
+  expand_rec r pol (S fuel) seen (l ++ ch_dollar :: ch_lbrace :: k ++ ch_rbrace :: t) = Err (ETooDeep k).
+Proof. exact expand_rec_too_deep. Qed.
+Print Assumptions C13_too_deep.
+Theorem C13_below_limit_unchanged : forall (r : fenv) pol fuel seen k v,
+  mem_str k seen = false -> length seen < max_depth -> alookup k r = Some v ->
+  value_of r pol fuel seen k = expand_rec r pol fuel (k :: seen) v.
+Proof. exact value_of_below_limit. Qed.
+Print Assumptions C13_below_limit_unchanged.
+
 (* \${...} is left as the literal ${...}; the load-time pass keeps the escape *)
 Theorem C13_escape : forall (r : fenv) pol (l t : str),
   no_dollar l -> no_dollar t ->
@@ -141,4 +157,13 @@ Proof. vm_compute. reflexivity. Qed.
 Example C13_ex_eval_escaped : eval EVtest (S_ "foo $$(1+1) $(1+1)") = Ok (S_ "foo $$(1+1) 2").
 Proof. vm_compute. reflexivity. Qed.
 Example C13_ex_multibyte : expand (E_ [("A", "a")]) PError (S_ "é${A}é") = Ok (S_ "éaé").
+Proof. vm_compute. reflexivity. Qed.
+
+(* a chain of 100 variables expands, one of 101 is refused with the typed error *)
+Definition vname (i : nat) : str := app (S_ "V") (show_dec (N.of_nat i)).
+Definition chain (n : nat) : fenv :=
+  app (map (fun i => (vname i, app (S_ "${") (app (vname (S i)) (S_ "}")))) (seq 0 n)) [(vname n, S_ "end")].
+Example C13_ex_depth_ok : expand (chain 99) PError (S_ "${V0}") = Ok (S_ "end").
+Proof. vm_compute. reflexivity. Qed.
+Example C13_ex_depth_refused : expand (chain 100) PError (S_ "${V0}") = Err (ETooDeep (vname 100)).
 Proof. vm_compute. reflexivity. Qed.
